@@ -363,6 +363,36 @@ func extractC19(c *Ctx) error {
 			wiring = append(wiring, src)
 		}
 	}
+	// the CheckTx priority every transaction gets: the TxFeeChecker app.go hands to the SDK ante handler
+	feeChecker := ""
+	ast.Inspect(newFn.Body, func(n ast.Node) bool {
+		if kv, ok := n.(*ast.KeyValueExpr); ok && c.Src(kv.Key) == "TxFeeChecker" {
+			feeChecker = c.Src(kv.Value)
+		}
+		return true
+	})
+	if feeChecker != "palomamodule.TxFeeSkipper" {
+		return fmt.Errorf("app.New: TxFeeChecker is %q; the translator knows palomamodule.TxFeeSkipper (constant priority) only", feeChecker)
+	}
+	pf, err := c.Parse("x/paloma/ante.go")
+	if err != nil {
+		return err
+	}
+	skip := FindFunc(pf, "", "TxFeeSkipper")
+	if skip == nil || len(skip.Body.List) != 1 {
+		return fmt.Errorf("x/paloma TxFeeSkipper: single return statement expected")
+	}
+	ret, ok := skip.Body.List[0].(*ast.ReturnStmt)
+	if !ok || len(ret.Results) != 3 {
+		return fmt.Errorf("x/paloma TxFeeSkipper: return of (coins, priority, error) expected")
+	}
+	ctp, err := coqInt64Expr(c.Src(ret.Results[1]))
+	if err != nil {
+		return err
+	}
+	c.P("Definition app_tx_fee_checker : string := %s.", CoqStr(feeChecker))
+	c.P("Definition app_check_tx_priority : Z := %s.", ctp)
+	c.Info("app_check_tx_priority", c.Src(ret.Results[1]))
 	c.P("Definition app_wiring : list string := %s.", CoqStrList(wiring))
 	c.Info("app_wiring", wiring)
 	// the pinned libraries the model trusts
